@@ -111,7 +111,7 @@ def coq_raw(df, covs):
 
 
 def deletion_part(ctx, fails):
-    n = 4 if ctx.quick else 40
+    n = 9 if ctx.quick else 60
     exprs, refs = [], []
     for i in range(n):
         otype = ['binary', 'normal'][i % 2]
@@ -166,7 +166,7 @@ def saturated_part(ctx, fails):
     """IPTW and TMLE, saturated treatment and missingness models, outcomes missing depending on A and L"""
     from zepid.causal.ipw import IPTW
     from zepid.causal.doublyrobust import TMLE
-    n = 4 if ctx.quick else 40
+    n = 8 if ctx.quick else 60
     exprs, refs = [], []
     for i in range(n):
         otype = 'binary'
